@@ -203,7 +203,7 @@ def known_findings(prop):
     p = os.path.join(VERIF, "known_findings.json")
     if not os.path.exists(p):
         return []
-    return [k for k in json.load(open(p))["findings"] if k["property"] == prop and k["status"] == "known"]
+    return [k for k in json.load(open(p))["findings"] if (k["property"] == prop or prop in k.get("also", [])) and k["status"] == "known"]
 
 
 # ----------------------------------------------------------------------------- check result / evidence
